@@ -275,3 +275,35 @@ def load_tables():
     ktab["table"] = [(67, 79, 0, 1, 3), (67, 73, 0, 2, 3)]
     tabs["kernel_rows"] = ktab["table"]
     return tabs
+
+
+def load_doc_tables(tabs):
+    """Tables for the ORACLES: the committed documented mapping
+    (lean/OvniModel/Spec/EventValues.lean) overrides the regenerated rows, so a
+    table edit in /repo shows up as a concrete timeline violation; events that
+    are not in the committed mapping fall back to the regenerated rows."""
+    import copy
+    import os
+    import re
+    import vcommon
+    src = open(os.path.join(vcommon.LEAN, "OvniModel", "Spec", "EventValues.lean")).read()
+    pinned = {}
+    for m in re.finditer(r'\((\d+), (\d+), (\d+), (\d+), (\d+), \(?(-?\d+)\)?, "((?:[^"\\]|\\.)*)"\)', src):
+        mc, c, v, ch, act, val = (int(x) for x in m.groups()[:6])
+        pinned.setdefault(mc, {})[(c, v)] = (c, v, ch, act, val)
+    out = copy.deepcopy(tabs)
+    for name, tab in out.items():
+        if not isinstance(tab, dict) or "char" not in tab:
+            continue
+        pm = pinned.get(tab["char"], {})
+        rows = []
+        seen = set()
+        for row in tab["table"]:
+            key = (row[0], row[1])
+            rows.append(pm.get(key, row))
+            seen.add(key)
+        for key, row in pm.items():
+            if key not in seen:
+                rows.append(row)        # documented event that disappeared from the code
+        tab["table"] = rows
+    return out
